@@ -492,9 +492,14 @@ func cmdCrash(fs *flag.FlagSet, args []string) {
 		// crash points: every prefix from p0 on (thinned to maxImages), each with the pending
 		// writes all present, all missing, and each single one missing / alone present
 		cps, total := crashPoints(events, p0, *fromP, *toP, *maxImages, root)
+		if *fromP == 0 {
+			// the point right after start-up: nothing but formatting (or recovery) and reads has happened
+			cps = append([]cp{{p: p0, desc: "right after start-up, all-pending-written"}, {p: p0, dropAll: true, desc: "right after start-up, no-pending-written"}}, cps...)
+		}
 		checked, distinctStates := 0, map[int]bool{}
 		// checkOne: one crash image (on top of `base`, the disk the recorded run started from), recovered
 		// by the real server and compared with the reference states; returns the matching prefix or -1
+		curWhere := ""
 		checkOne := func(base map[uint64][]byte, events []recEvent, ops []crashOp, dumps []string, c cp, stage string) int {
 			img := buildImage(events, c.p, c.keep, c.dropAll)
 			if base != nil {
@@ -537,6 +542,10 @@ func cmdCrash(fs *flag.FlagSet, args []string) {
 				if strings.HasPrefix(l, "# LOCKS ") {
 					emit("%s", l)
 				}
+				if strings.HasPrefix(l, "# ORACLE C10 ") {
+					// the coherence oracle on the recovered server (below)
+					emit("%s :: on the server recovered at %s", l, curWhere)
+				}
 			}
 			rs.d = NewOverlay(*disksz, img)
 			ok := rs.guarded("recover", func() { rs.srv = nfs.MakeNfs(rs.d) })
@@ -549,6 +558,9 @@ func cmdCrash(fs *flag.FlagSet, args []string) {
 			rs.objs[hx(rootfh)] = &objInfo{fh: rootfh, kind: 2}
 			rs.dirs[hx(rootfh)] = &dirInfo{names: map[string][]byte{}}
 			where := fmt.Sprintf("workload seed %d (%s mix)%s crash point %d (%s)", wseed, *mix, stage, c.p, c.desc)
+			curWhere = where
+			// what start-up put into the caches must be what the journal says is on the disk
+			rs.coherence()
 			if imgOut != nil {
 				// the recovered logical disk, before anything else touches it: half-freed objects allowed
 				emitImage(rs.srv.VerifFsState(), "recovered: "+where, false, true, nil, imgOut)
